@@ -205,6 +205,7 @@ fn draw_opts(rng: &mut Rng, thorough: bool) -> Opts {
         disable_recovery: rng.chance(1, 6),
         node_kind_enums: rng.chance(1, 3),
         exports: rng.chance(1, 3),
+        custom: rng.chance(1, 4),
     }
 }
 
